@@ -24,6 +24,22 @@ def freeze(v):
     elif isinstance(v, MapV):
         for k in v.d: v.d[k].frozen = True; freeze(v.d[k].v)
 
+def float_variant(v):
+    """a document that is loosely equal (1 == 1.0) but not identical: integers respelled as doubles; unmaterialised parts are shared"""
+    v = MM.deref_all(v)
+    if not isinstance(v, Agg) or v.lazy is not None: return v
+    k = v.variant
+    if k == 'Number':
+        n = v.fields[0].v; c = MM.cval(n.val)
+        if n.kind != 'float' and c is not None and abs(c) < 2 ** 53: return mk_enum('Variable', 'Number', [NumberV('float', F64(float(c)))])
+        return v
+    if k == 'Array': return mk_enum('Variable', 'Array', [VecV([Cell(Ptr(Cell(float_variant(c.v)), 'rc')) for c in v.fields[0].v.items])])
+    if k == 'Object':
+        mp = MapV()
+        for kk in v.fields[0].v.d: mp.d[kk] = Cell(Ptr(Cell(float_variant(v.fields[0].v.d[kk].v)), 'rc'))
+        return mk_enum('Variable', 'Object', [mp])
+    return v
+
 def job_seq(item):
     e1, e2, ddepth, deadline = item
     prog = PROG; eng = Engine(prog); eng.deadline = deadline; S = Summary(); XP.init_decls(prog)
@@ -40,6 +56,9 @@ def job_seq(item):
         # intervening history: another compilation and search (possibly failing midway), on a different document
         c2 = ex.call('compile', [Ptr(Cell(rstr(e2)))])
         if c2.variant == 'Ok':
+            # the tree compile() hands out for e2 is the tree of e2 itself (parse is the stateless reference), whatever was compiled before
+            p2 = ex.call('parse', [Ptr(Cell(rstr(e2)))])
+            if p2.variant != 'Ok' or PJ.canon(prog, ex.call('Expression::as_ast', [Ptr(Cell(c2.fields[0].v))]), {}) != PJ.canon(prog, p2.fields[0].v, {}): return 'compile() after other compilations yields a tree that is not the parse of its argument'
             d2 = SY.sym_variable(ex, SY.DocSpec(depth=1, A=2, keys=('a', 'b'), strs=('', 'a'), nums=[0, 1])); ex.doc2 = d2
             r2 = search(ex, c2.fields[0].v, SY.rc(d2))
         # compiling the same string again yields the same tree
@@ -88,7 +107,56 @@ def job_seq(item):
     S.absorb_engine(eng)
     return S
 
+def job_variant(item):
+    """a re-used expression on a document that is loosely equal to the previous one (1 vs 1.0, i.e. `==` holds) behaves like a freshly compiled one"""
+    e1, ddepth, deadline = item
+    prog = PROG; eng = Engine(prog); eng.deadline = deadline; S = Summary(); XP.init_decls(prog)
+    spec = SY.DocSpec(depth=ddepth, A=2, keys=('a', 'b'), strs=('', 'a'), nums=[0, 1, -1])
+    def body(ex):
+        c1 = ex.call('compile', [Ptr(Cell(rstr(e1)))])
+        if c1.variant != 'Ok': raise Unsupported('harness expression does not compile: ' + e1)
+        x1 = c1.fields[0].v
+        d1 = SY.sym_variable(ex, spec); ex.doc = d1
+        r1 = ex.call('Expression::search', [Ptr(Cell(x1)), SY.rc(d1)])
+        dv = SY.rc(float_variant(d1)); ex.u_dv = dv
+        used = ex.call('Expression::search', [Ptr(Cell(x1)), dv])
+        fresh = ex.call('Expression::search', [Ptr(Cell(ex.call('compile', [Ptr(Cell(rstr(e1)))]).fields[0].v)), dv])
+        if used.variant != fresh.variant: return 'outcome class differs from a fresh expression'
+        if used.variant == 'Ok': return ER.same(ex, used.fields[0].v, fresh.fields[0].v)
+        return None
+    def on_path(ex, r):
+        S['paths'] += 1; S['outcomes'][r[0]] += 1
+        if r[0] == 'unsupported': S.inconclusive(f'variant {e1!r}: ' + XP.short_unsupported(r[1])); return
+        if r[0] != 'ok' or r[1] is None:
+            if r[0] == 'ok': S['vacuity']['variant agrees'] = True
+            return
+        acc = []; SY.lazy_null_constraints(ex.doc, acc)
+        sat, m = eng.check(ex.pc + acc)
+        if not sat: return
+        d1 = SY.tagged(ex, ex.doc, m); dv = SY.tagged(ex, ex.u_dv, m)
+        S.cand('c13:reuse-differs', f'{e1}: a re-used expression on a loosely-equal document: {r[1]}', {'e1': e1, 'd1': d1, 'dv': dv},
+               {'op': 'reuse', 'expr': e1, 'docs': [d1, dv]}, expected='same as a fresh expression')
+    n, rest = eng.explore(body, on_path, max_paths=3000)
+    if rest: S.inconclusive(f'variant {e1!r}: cap/deadline after {n} paths')
+    S.absorb_engine(eng)
+    return S
+
+def task(item):
+    return job_variant(item[1:]) if item[0] == 'variant' else job_seq(item[1:])
+
 def confirm(c, nd, nr):
+    if c['key'] == 'c13:reuse-differs':
+        obs = {'dev': nd.request(c['request']), 'release': nr.request(c['request'])}
+        return any(o.get('kind') != 'ok' or not o.get('equal') for o in obs.values()), obs
+    if 'not the parse of its argument' in (c.get('what') or ''):
+        # history dependence of compile(): the tree for e2 after e1 was compiled vs in a fresh process (thread-local / static caches start empty)
+        from vf import native as nat
+        w = c['witness']; out = {}
+        for prof in ('dev', 'release'):
+            a = nat.Native(prof); b = nat.Native(prof)
+            after = a.request({'op': 'seq', 'reqs': [{'op': 'search_default', 'expr': w['e1'], 'doc': w['d1']}, {'op': 'compile_default', 'expr': w['e2']}]}); fresh = b.request({'op': 'compile_default', 'expr': w['e2']})
+            a.close(); b.close(); out[prof] = {'after_e1': after[1] if isinstance(after, list) else after, 'fresh': fresh}
+        return any(o['after_e1'] != o['fresh'] for o in out.values()), out
     obs = {}
     for prof, n in (('dev', nd), ('release', nr)): obs[prof] = n.request(c['request'])
     def bad(a):
@@ -104,15 +172,17 @@ def run(run):
     run.native('dev')
     XP.run_translator_validation(run, PROG, every=8 if run.tier == 'quick' else 1)
     quick = run.tier == 'quick'; dl = run.deadline
-    n1 = 12 if quick else len(EXPRS)
-    e1s = [EXPRS[(i * 3 + run.seed) % len(EXPRS)] for i in range(n1)] if quick else EXPRS
-    e2s = ['nosuch(a)', 'sort_by(a, &b)', 'a[::0]', 'a[*].b', 'abs(a)'] if quick else ['nosuch(a)', 'sort_by(a, &b)', 'a[::0]', 'a[*].b', 'abs(a)', 'max_by(a, &b)', 'map(&b, a)', '[a b', 'a.b']
-    jobs = [(e1, e2, 1 if '==' in e1 or 'contains' in e1 else 2, dl) for e1 in e1s for e2 in e2s]
+    n1 = 8 if quick else len(EXPRS)
+    e1s = ([EXPRS[(i * 3 + run.seed) % len(EXPRS)] for i in range(n1)] if quick else EXPRS) + ["a == 'x y'", 'a  ||  b']
+    # intervening calls: failing at the call, failing in the SECOND argument after the first was evaluated, failing inside an expression reference, succeeding
+    e2s = ['nosuch(a)', 'not_null(a, abs(b))', 'sort_by(a, &abs(@))', 'a[::0]', 'a[*].b', 'contains(a, nosuch(b))', "a == 'x  y'", 'a || b'] if quick else ['nosuch(a)', 'not_null(a, abs(b))', 'sort_by(a, &abs(@))', 'a[::0]', 'a[*].b', 'contains(a, nosuch(b))', 'abs(a)', 'max_by(a, &b)', 'map(&b, a)', '[a b', 'a.b', 'merge(@, abs(a))', "a == 'x  y'", 'a || b', "a == 'x y'"]
+    jobs = [('seq', e1, e2, 1 if '==' in e1 or 'contains' in e1 else 2, dl) for e1 in e1s for e2 in e2s]
+    jobs += [('variant', e, 1 if '==' in e else 2, dl) for e in (['a', 'a[0]', 'to_string(a)', 'a[*].b', '@', 'type(a)', '[a, b]', 'a || b'] if quick else EXPRS)]
     run.bounds = {'call sequences': f'compile(e1); search(d1); compile(e2); search(d2) [may fail midway]; compile(e1) again; clone; search(d1) twice -- for {len(e1s)} x {len(e2s)} expression pairs (core forms and built-ins), '
                                     'documents d1 depth 2 / d2 depth 1 lazily symbolic; through the crate-level compile() (DEFAULT_RUNTIME lazy static, initialised on the path) and Expression::search',
                   'state model': 'statics are per-path persistent cells (initialiser MIR run once), the runtime is shared by all calls of the path, input document cells are frozen after the first search'}
     run.outside = ['state hidden behind std types the engine does not model (reference counts: Rc::get_mut / make_mut / strong_count; thread_local!): such code makes the run INCONCLUSIVE, not green', 'more than one intervening call', 'thread interleavings (C16, not applicable)']
     run.assumes = ['safe Rust cannot write through &/Rc without interior mutability; writes into frozen cells by MIR statements are detected, writes by unmodelled std calls are reported as unsupported']
-    run_jobs(run, jobs, job_seq, 'mirsym: sequences of public calls on one path (shared statics/runtime), first vs last outcome')
+    run_jobs(run, jobs, task, 'mirsym: sequences of public calls on one path (shared statics/runtime), first vs last outcome')
     run.cands = [c for c in run.cands if c['key'].startswith(('c13:', 'c05:'))]
     run.confirm_all(confirm)
